@@ -367,8 +367,8 @@ pub fn inject(doc: &mut ADoc, defect: usize, sel: &mut Tape, tail: &mut Vec<u8>,
                                 cand.insert(pos, ch);
                             }
                             let s = String::from_utf8(cand).ok()?;
-                            let all_reject = [crate::rx::DotMode::All, crate::rx::DotMode::NoNl, crate::rx::DotMode::NoNlCr].iter().all(|dm| !crate::rx::Dfa::compile(regex, *dm).map(|x| x.accepts(s.as_bytes())).unwrap_or(true));
-                            let known_impl_accepts = crate::c19::KNOWN_IMPL.iter().any(|(r, imp, _)| r == regex && crate::rx::Dfa::compile(imp, crate::rx::DotMode::All).map(|x| x.accepts(s.as_bytes())).unwrap_or(false));
+                            let all_reject = pattern_dfas3(regex).iter().all(|x| !x.accepts(s.as_bytes()));
+                            let known_impl_accepts = known_overaccepted(regex, s.as_bytes());
                             if all_reject && !known_impl_accepts && !s.is_empty() && s.trim() == s && max_length.is_none_or(|mx| s.len() <= mx) && !s.contains(['&', '<', '>', '"', '\'']) {
                                 Some(s)
                             } else {
